@@ -13,6 +13,37 @@ QUICK_CONFIGS = "lifts only, every number of 64-bit moduli 25..1000 (GMP pre-fil
 THOROUGH_CONFIGS = QUICK_CONFIGS.split(";")[0] + " + <u16,8,2> <u32,8,7> <u32,2,{8,16,64,100,128,200,256,290,291}> <u64,8,5> <u64,2,{8,16,64,128,300,1000}>; ASan/UBSan build of the whole quick set"
 
 
+def translators(repo):
+    """source-level tie of the CRT code: Generated/CrtAst.lean is re-translated from clang's AST of gmp.hpp (GMP::GMP(),
+    GMP::poly2mpz(array&, poly const&), GMP::mpz2poly; get_modulus / operator()(cm,i) of poly.hpp inlined; static_log2 of meta.hpp)
+    on every run, every GMP call mapped by name through Model/GmpSem.lean; the equalities with the hand model
+    (Proofs/CrtAstEq.lean) and the transported C04 statements (Properties/C04Ast.lean) are then re-checked by `lake build`.
+    set_mpz(It,It) and its forwarding overloads stay hand-modelled."""
+    import json
+    r = cl.run(["python3", os.path.join(cl.HERE, "gen_crt_ast.py"), "--repo", repo])
+    info = {"ok": r.returncode == 0}
+    if r.returncode != 0:
+        info["err"] = (r.stdout + r.stderr)[-2000:]
+    else:
+        try:
+            info.update(json.loads(r.stdout.strip().splitlines()[-1]))
+            info.pop("node_kinds", None)
+        except Exception as e:
+            info["ok"] = False
+            info["err"] = "unparsable summary: %s" % e
+    return {"gen_crt_ast": info}
+
+
+CRT_AST_TB = ("source-level tie of GMP::GMP(), GMP::poly2mpz(array&, poly const&) (and the translation of GMP::mpz2poly): clang++-14's typed AST "
+              "(-ast-dump=json) of the instantiated members for two (Degree, NbModuli) per limb type, tools/gen_crt_ast.py's traversal (mpz_t = integer "
+              "variable, std::array<mpz_t,n>::operator[] = list element, poly::operator()(cm,i) and get_modulus(cm) inlined from their bodies, counted "
+              "`for` loops over template constants = folds over List.range), the GMP-call mapping table lean/NflVerif/Model/GmpSem.lean (= the GMP "
+              "contract above, one definition per GMP function name; mpz_invert = the parameter inv), the per-node integer semantics of "
+              "lean/NflVerif/Model/CSem.lean for size_t / unsigned long expressions (sites listed under translators.gen_crt_ast.size_t_sites; the "
+              "equality theorems assume as explicit hypotheses that they do not wrap: shift < 2^64, nmoduli*degree < 2^64), and for static_log2 the "
+              "recursion argument N/2 read off the instantiated specialisations (clang's JSON omits it for the dependent pattern)")
+
+
 def _specs(tier):
     if tier == "thorough":
         return [dict(name="crt", backend="serial", sanitize=None, extra=["-DCRT_THOROUGH"]),
@@ -79,6 +110,7 @@ def search(ctx, res, problems):
 PROP = {
     "streams": streams,
     "search": search,
+    "translators": translators,
     "rule": ("static GMP constants (Q, bits, shift, floor(2^s/Q), lifting integers) read from poly<T,N,M>::gmp and compared with the model's gmpInit "
              "and with their defining properties (L_i = delta_ij mod p_j, L_i < Q); poly2mpz / mpz2poly / set_mpz / mpz constructors / assignments on poly and "
              "poly_p with residue patterns generated by construction (zero, all p-1 = maximal pre-reduction sum, one-hot 1 and p-1, all-but-one p-1, residues of "
@@ -89,6 +121,7 @@ PROP = {
              "statement of the property evaluated on the implementation's answer (0 <= x < Q and x mod p_i = r_i; residues in [0,p_i) with p_i | z - r_i; "
              "x = z mod Q; X = (A o B) mod Q; C = schoolbook negacyclic product of A, B over Z_Q). distinct = distinct op lines, all non-trivial."),
     "trusted_base": COMMON_TB + [
+        CRT_AST_TB,
         "GMP is a contract: mpz_t values are mathematical integers; mpz_mul/_ui, mpz_addmul_ui, mpz_submul, mpz_sub, mpz_tdiv_q(_2exp), mpz_divexact, mpz_cmp are exact; "
         "mpz_sizeinbase(x,2) is the bit length; mpz_fdiv_ui(z,p) is the floor remainder in [0,p); mpz_invert(a,p) returns the inverse in [0,p) when gcd(a,p)=1 "
         "(theorems are stated for ANY function with that contract; the extended-Euclid model is proved to meet it). mpz_init2 sizes are allocation hints only.",
@@ -99,6 +132,7 @@ PROP = {
     "assumptions": [
         "inputs of poly2mpz are canonical (every word of slice cm is < p_cm) — the library's own invariant (C02/C09)",
         "NbModuli >= 1 (static_log2<0> has no value: NbModuli = 0 does not compile) and NbModuli <= kMaxNbModuli of the limb type",
+        "source-level tie (C04Ast): 1 <= NbModuli < 2^64, bits(Q)+w+floor(log2 m)+1 < 2^64 and NbModuli*Degree < 2^64 (no size_t wrap; proved from p <= 2^w, w <= 64, m <= 2^32 in C04Ast.ctorFits_of_small); words of the polynomial are values of T; set_mpz and the equality mpz2poly_uW = Crt.mpz2poly are NOT covered by the source-level tie (differential stream only)",
         "set_mpz / constructor from std::array<mpz_t,Degree> are uninstantiable in the library (set_mpz(It,It) calls viter->get_mpz_t() on an mpz_t): compile error, outside the run-time property",
     ],
 }
